@@ -50,6 +50,28 @@ def main():
                 continue
             ref = distref.reference(fam, params)
             total_ref = getattr(ref, "total", 1.0)
+            # one coherent law whatever is asked first: on a FRESH object the very first question is an interval probability (as for a freshly
+            # parsed molecule in mol_prob.get_ensemble_prob); it equals the CDF difference, and the same question after a draw and a point
+            # query gets the same answer
+            try:
+                d0 = get_distribution("|" + text + "|")
+                qa, qb = ref.quantile(0.2 * total_ref), ref.quantile(0.8 * total_ref)
+                first = float(d0.prob_mw(interval(qb, qa)))
+                want0 = ref.cdf(qb) - ref.cdf(qa)
+                ck.count("interval-asked-first")
+                if not close(first, want0, 1e-6, INTEGRATED_ABS if fam == "log_normal" else 1e-9):
+                    ck.fail("interval-probability", dict(inp, interval=[qa, qb], asked="first on a fresh object"),
+                            f"prob_mw = {first!r}, F(value) - F(previous) = {want0!r}")
+                d0.draw_mw(QuantileRNG(0.37))
+                try:
+                    d0.prob_mw(round(qa) if ref.discrete else qa)
+                except Exception:
+                    pass
+                again = float(d0.prob_mw(interval(qb, qa)))
+                if not close(first, again, 1e-9, 1e-12):
+                    ck.fail("law-depends-on-call-history", dict(inp, interval=[qa, qb]), f"the same interval has probability {first!r} on a fresh object and {again!r} after a draw and a point query")
+            except Exception as exc:
+                ck.fail("prob-raises", dict(inp, asked="interval first on a fresh object"), f"{type(exc).__name__}: {exc}")
             draws = []
             for q in grid:
                 if fam == "schulz_zimm" and q >= total_ref - 1e-9:
